@@ -13,6 +13,11 @@ standstill bundles, events for retired and pruned slots, in any order.
 
 `log es` is the history, newest first, of the events received (`.ev`) and of everything handed to
 `All2All::broadcast` (`.out`). In `log = a ++ x :: b` the list `b` is what happened *before* `x`.
+
+The clause "fallback votes only in slots where the node already voted" is not a property of Votor alone
+(`fallback_before_vote_without_pool`); it is proved at the end of this file for the composed node
+`AgModel.Node` (the node's own pool feeding Votor through the event queue): `node_fallback_only_after_vote`,
+`node_fallback_not_for_own_block`.
 -/
 namespace AgModel.Votor
 
